@@ -161,7 +161,8 @@ def gen_dataset(rng, tier, kind='vcf', full=False, npop=None):
     if rng.random() < 0.7:
         sites.sort(key=lambda s: (chroms.index(s['chrom']), s['pos']))
     ds = dict(kind=kind, pops=pops, ndip=nd, samples=samples, sites=sites, fmt=fmt, sep=sep, full=full,
-              popinfo_style=int(rng.integers(0, 4)), span=span)
+              popinfo_style=int(rng.integers(0, 4)), span=span,
+              popinfo_order=[int(i) for i in rng.permutation(len(samples))] if rng.random() < 0.5 else None)
     ds['params'] = gen_params(rng, ds, tier)
     return ds
 
@@ -172,7 +173,8 @@ def gen_params(rng, ds, tier):
     for c in range(ncfg):
         k = int(rng.integers(1, P + 1))
         sel = [int(x) for x in rng.choice(P, size=k, replace=False)]
-        if c == 0: sel = list(range(P))
+        if c == 0:                                                     # all populations; half of the time NOT in the order of `pops`
+            sel = [int(x) for x in rng.permutation(P)] if (P > 1 and rng.random() < 0.5) else list(range(P))
         cap = 2500 if tier == 'quick' else 9000
         while True:
             proj = []
@@ -194,8 +196,61 @@ def gen_params(rng, ds, tier):
     for p in range(P):
         if rng.random() < 0.85 or not sub:
             sub[ds['pops'][p]] = int(rng.integers(1, ds['ndip'][p] + 1))
+    # a dictionary argument has an order of its own (insertion order): written as a list of pairs so that replays keep it
+    sub_items = [[k, sub[k]] for k in sub]
+    if len(sub_items) > 1 and rng.random() < 0.7:
+        sub_items = [sub_items[int(i)] for i in rng.permutation(len(sub_items))]
     return dict(filter=bool(rng.random() < 0.75), configs=configs, chunk_size=chunk, nboot=int(rng.integers(1, 4)),
-                bootseed=int(rng.integers(1 << 30)), subsample=sub, subseed=int(rng.integers(1 << 30)))
+                bootseed=int(rng.integers(1 << 30)), subsample=sub_items, subseed=int(rng.integers(1 << 30)),
+                pipeline=gen_pipeline(rng, ds, tier, cands))
+
+def lines_with_enough(ds, filt, sub):
+    """number of distinct CHROM_POS with a SNP line on which every population of `sub` has at least sub[pop] complete genotypes"""
+    keys = set()
+    for s in ds['sites']:
+        r, a = s['ref'].upper(), s['alt'].upper()
+        if not (len(r) == 1 and len(a) == 1 and r in BASES and a in BASES) or (filt and s['filt'] not in ('PASS', '.')): continue
+        n = {p: 0 for p in sub}
+        for (nm, p), al, nod in zip(ds['samples'], s['gts'], s['nodata']):
+            if p in n and 9 not in al and not nod: n[p] += 1
+        if all(n[p] >= sub[p] for p in sub): keys.add((s['chrom'], s['pos']))
+    return len(keys)
+
+def gen_pipeline(rng, ds, tier, chunk_cands):
+    """one call of the composed entry point Misc.bootstraps_subsample_vcf: `subsample` (a dictionary, insertion order its own),
+    `pop_ids` (a list, order its own, possibly fewer populations than `subsample`), unequal sizes wherever the data allow"""
+    P = len(ds['pops']); pops = ds['pops']; nd = ds['ndip']
+    cap = 1200 if tier == 'quick' else 4000
+    keys = list(range(P))
+    if P > 1 and rng.random() < 0.15:
+        keys.remove(int(rng.integers(P)))                                   # a population of the popinfo file that is not sub-sampled at all
+    ids = [keys[int(i)] for i in rng.permutation(len(keys))]
+    if len(ids) > 1 and rng.random() < 0.25:
+        ids = ids[:-1]                                                       # the dictionary may hold more populations than are asked for
+    while True:
+        u = rng.random()
+        size = {p: (nd[p] if u < 0.2 else int(rng.integers(1, nd[p] + 1))) for p in keys}
+        if len(ids) > 1 and len(set(size[p] for p in ids)) == 1 and rng.random() < 0.85:
+            q = ids[int(rng.integers(len(ids)))]
+            alt = [k for k in range(1, nd[q] + 1) if k != size[q]]
+            if alt: size[q] = int(rng.choice(alt))
+        if int(np.prod([2 * size[p] + 1 for p in ids])) <= cap: break
+    filt = bool(rng.random() < 0.7)
+    # mostly requests that leave at least one line with enough complete genotypes (an empty dictionary has nothing to resample)
+    while lines_with_enough(ds, filt, {pops[p]: size[p] for p in keys}) == 0 and max(size.values()) > 1 and rng.random() < 0.9:
+        q = max(size, key=lambda p: size[p]); size[q] = max(1, size[q] // 2)
+    order = list(keys)
+    if len(order) > 1:
+        order = [order[int(i)] for i in rng.permutation(len(order))]
+        if rng.random() < 0.7:
+            # written in another order than `pop_ids` (for two populations: the opposite one)
+            for _ in range(8):
+                if [p for p in order if p in ids] != ids: break
+                order = [order[int(i)] for i in rng.permutation(len(order))]
+    return dict(subsample=[[pops[p], size[p]] for p in order], pop_ids=[pops[p] for p in ids],
+                nboot=int(rng.integers(1, 3)), chunk_size=int(rng.choice(chunk_cands)), filter=filt,
+                mask_corners=bool(rng.random() < 0.4), polarized=bool(rng.random() < 0.7),
+                subseed=int(rng.integers(1 << 30)), bootseed=int(rng.integers(1 << 30)))
 
 # ------------------------------------------------------------------------------------------------ rendering
 def gt_text(al, sep):
@@ -227,7 +282,8 @@ def render_vcf(ds, d):
         if st == 1: f.write('# a comment\n')
         if st == 2: f.write('SAMPLE\tPOP\n')
         if st == 3: f.write('pop sample extra\n')
-        for name, p in ds['samples']:
+        order = ds.get('popinfo_order') or range(len(ds['samples']))     # the popinfo file lists the samples in an order of its own
+        for name, p in [ds['samples'][i] for i in order]:
             if p is None: continue
             if st == 3: f.write('%s %s x\n' % (p, name))
             else: f.write('%s\t%s\n' % (name, p))
@@ -631,6 +687,29 @@ def spectrum_clauses(chk, fs, fs_nomask, ref, usable, names, proj, pol, mc, tag,
     if abs(tot - usable) > 1e-9 * max(usable, 1):
         chk.fail('from_data_dict:%s:total%s' % (tag, phase), 'total %.12g != number of usable SNPs %d' % (tot, usable), inp)
 
+def check_count_dict(chk, ctx, ds, dd, entries_oracle, names, tag, inp):
+    """Misc.count_data_dict against direct counting: {(calls per population, derived calls per population, polarised): number of
+    biallelic SNPs with that configuration}, the populations in the order of `pop_ids` (not of the dictionaries inside)"""
+    M = ctx['dadi'].Misc
+    try:
+        cd = dict(M.count_data_dict(dd, list(names)))
+    except Exception as e:
+        chk.fail('count_data_dict:%s:raises:%s' % (tag, type(e).__name__), 'count_data_dict raises %r' % (e,), inp); return
+    exp = {}
+    for e in entries_oracle:
+        if e.get('nseg', 2) != 2: continue
+        og = e.get('out', None)
+        polz = og is not None and og != '-' and og in (e['a1'], e['a2'])
+        der = 1 if (not polz or e['a1'] == og) else 0
+        k = (tuple(int(sum(e['counts'][p])) for p in names), tuple(int(e['counts'][p][der]) for p in names), polz)
+        exp[k] = exp.get(k, 0) + 1
+    got = {(tuple(int(x) for x in k[0]), tuple(int(x) for x in k[1]), bool(k[2])): int(v) for k, v in cd.items()}
+    chk.l3((tag, 'count_data_dict', len(names), len(exp) > 1))
+    if got != exp:
+        diff = [k for k in set(got) | set(exp) if got.get(k) != exp.get(k)][:3]
+        chk.fail('count_data_dict:%s:counts' % tag, 'count_data_dict(pop_ids=%r) is not the count of SNP configurations of the matrix: e.g. %s'
+                 % (list(names), ['%r: %r, counted %r' % (k, got.get(k), exp.get(k)) for k in diff]), inp)
+
 def check_spectra(chk, ctx, ds, dd, entries_oracle, model_entries, pop_names_all, tag):
     """from_data_dict for every configuration: K (spec) + L3 (oracle, total) + statistics, then the same clauses again on the
     same objects (statistics must not have changed them)"""
@@ -646,6 +725,7 @@ def check_spectra(chk, ctx, ds, dd, entries_oracle, model_entries, pop_names_all
         except Exception as e:
             chk.fail('from_data_dict:%s:raises:%s' % (tag, type(e).__name__), 'from_data_dict raises %r' % (e,), inp); continue
         # ---- L3: direct counting
+        check_count_dict(chk, ctx, ds, dd, entries_oracle, names, tag, inp)
         ref, usable = oracle_spectrum(entries_oracle, names, proj, pol)
         populated = bool(ref.flat[0] != 0 or ref.flat[-1] != 0)
         chk.l3((tag, len(sel), pol, mc, tuple(min(p, 3) for p in proj), usable > 0, usable < len(entries_oracle), populated))
@@ -837,8 +917,8 @@ def check_chunks(chk, ctx, ds, dd, model_entries, pop_names_all, codes, tag):
 
 def check_subsample(chk, ctx, ds, vcf, pop, pop_names_all, codes):
     dadi = ctx['dadi']; M = dadi.Misc
-    par = ds['params']; sub = par['subsample']; filt = par['filter']
-    at = dict(stage='subsample', subsample=sub)
+    par = ds['params']; sub = as_dict(par['subsample']); filt = par['filter']
+    at = dict(stage='subsample', subsample=par['subsample'])
     inp = dict(kind=ds['kind'], dataset=ds, at=at)
     rec = []
     orig = np.random.choice
@@ -888,7 +968,7 @@ def check_subsample(chk, ctx, ds, vcf, pop, pop_names_all, codes):
     # ---- K: the model replays the recorded draws
     if have_driver(ctx):
         selidx = [pop_names_all.index(p) for p in names]
-        want = '+'.join('%d:%d' % (pop_names_all.index(p), sub[p]) for p in names)
+        want = '+'.join('%d:%d' % (pop_names_all.index(p), sub[p]) for p in sub if p in names)      # in the dictionary's own order
         draws = ';'.join(','.join(map(str, r[3])) if r[3] else '-' for r in rec) if rec else '-'
         out = ask(ctx, 'subsample %d %s %s %s %s' % (filt, want, draws, ','.join(map(str, selidx)), sites_wire(ds, codes)))
         impl_e = impl_entries(dd, names, codes)
@@ -912,6 +992,165 @@ def check_subsample(chk, ctx, ds, vcf, pop, pop_names_all, codes):
                     chk.fail('from_data_dict:subsample:raises:%s' % type(e).__name__, 'from_data_dict on the sub-sampled dictionary raises %r' % (e,), inp)
         else:
             kbad(chk, 'subsample', ds, impl_e, out, None, at)
+
+def as_dict(items):
+    """a dictionary argument from its (key, value) pairs, in that insertion order (older replay files hold a dict)"""
+    return dict(items) if isinstance(items, dict) else {k: v for k, v in items}
+
+# ------------------------------------------------------------------------------------------------ the composed entry point
+def oracle_subsampled(ds, filt, sub, draws):
+    """the dictionary one pass of the sub-sampling reader must produce, read off the matrix with the recorded draws:
+    a line is kept iff it is a SNP line and every population of `sub` has at least sub[pop] complete genotypes; the populations
+    are visited in the order of their first sample column and each visited one consumes one draw (indices into its complete
+    genotypes, column order).  Returns (entries {key: dict(a1, a2, out, counts)}, draws used, problem or None)."""
+    out = {}; it = 0
+    for s in ds['sites']:
+        if not is_snp_line(s, filt): continue
+        comp = {}
+        for (nm, p), al, nod in zip(ds['samples'], s['gts'], s['nodata']):
+            if p is None or p not in sub: continue
+            lst = comp.setdefault(p, [])
+            if 9 not in al and not nod: lst.append(al)
+        counts = {}; kept = True
+        for p, lst in comp.items():
+            if len(lst) < sub[p]:
+                kept = False; break
+            if it >= len(draws):
+                return out, it, 'the reader drew fewer times than there are (line, population) pairs with enough complete genotypes'
+            a_len, size, repl, r = draws[it]; it += 1
+            if a_len != len(lst) or size != sub[p] or repl or len(r) != size or len(set(r)) != size or any(not (0 <= x < len(lst)) for x in r):
+                return out, it, 'draw %d (%d of %d, replace=%s: %r) is not %d distinct of the %d complete genotypes of %s at %s_%d' % (
+                    it - 1, size, a_len, repl, r, sub[p], len(lst), p, s['chrom'], s['pos'])
+            counts[p] = (sum(lst[i].count(0) for i in r), sum(lst[i].count(1) for i in r))
+        if not kept: continue
+        aa = aa_value(s)
+        if aa is None or len(aa) != 1 or aa not in BASES: aa = '-'
+        out['%s_%d' % (s['chrom'], s['pos'])] = dict(a1=s['ref'].upper(), a2=s['alt'].upper(), out=aa, counts=counts)
+    return out, it, None
+
+def oracle_chunks(entries, size):
+    """chunks of a dictionary {CHROM_POS: entry}: per chromosome (order of first appearance) the windows ((k)*size, (k+1)*size],
+    k = 0 .. the last occupied one, empty windows included -> list of lists of entries"""
+    by = {}
+    for k, e in entries.items():
+        chrom, pos, info = split_key(k)
+        by.setdefault(chrom, []).append((pos, e))
+    out = []
+    for chrom, lst in by.items():
+        last = max(max(pos - 1, 0) // size for pos, e in lst)
+        for c in range(last + 1):
+            out.append([e for pos, e in lst if max(pos - 1, 0) // size == c])
+    return out
+
+def check_pipeline(chk, ctx, ds, vcf, pop, pops, codes):
+    """Misc.bootstraps_subsample_vcf end to end against direct counting: the VCF is sub-sampled, cut into chunks and one bootstrap
+    of the chunks is taken, Nboot times.  Every replicate must have 2 x (requested individuals) chromosomes per population IN THE
+    ORDER OF pop_ids, be the sum of the chosen chunks' spectra of the sub-sampled data (draws and choices recorded at the random
+    number generators, everything else recomputed from the matrix), and total the number of usable SNPs in the chosen chunks."""
+    dadi = ctx['dadi']; M = dadi.Misc
+    par = ds['params'].get('pipeline')
+    if not par or not hasattr(M, 'bootstraps_subsample_vcf'): return
+    sub = as_dict(par['subsample']); pop_ids = list(par['pop_ids'])
+    nboot, size, filt, mc, pol = int(par['nboot']), int(par['chunk_size']), bool(par['filter']), bool(par['mask_corners']), bool(par['polarized'])
+    proj = [2 * sub[p] for p in pop_ids]
+    at = dict(stage='pipeline', subsample=par['subsample'], pop_ids=pop_ids, Nboot=nboot, chunk_size=size, filter=filt, mask_corners=mc, polarized=pol)
+    inp = dict(kind=ds['kind'], dataset=ds, at=at)
+    same_order = [p for p in sub if p in pop_ids] == pop_ids
+    sizes_differ = len(set(sub[p] for p in pop_ids)) > 1
+    chk.stat('pipeline:dict-order=%s,sizes=%s' % ('pop_ids' if same_order else 'other', 'unequal' if sizes_differ else 'equal'))
+    chk.stat('pipeline:npop=%d%s' % (len(pop_ids), '' if len(sub) == len(pop_ids) else '(of %d)' % len(sub)))
+    events = []
+    orig_choice = np.random.choice; orig_choices = M.random.choices
+    def choice(a, size=None, replace=True, p=None):
+        r = orig_choice(a, size, replace=replace)
+        events.append(('draw', (len(a), int(size), bool(replace), [int(x) for x in np.atleast_1d(r)])))
+        return r
+    def choices(population, weights=None, *, cum_weights=None, k=1):
+        idx = orig_choices(range(len(population)), k=k)
+        events.append(('choice', (len(population), [int(i) for i in idx])))
+        return [population[i] for i in idx]
+    np.random.seed(par['subseed'] % (2 ** 32)); pyrandom.seed(par['bootseed'])
+    np.random.choice = choice; M.random.choices = choices
+    try:
+        with warnings.catch_warnings():
+            warnings.simplefilter('ignore')
+            boots = M.bootstraps_subsample_vcf(vcf, pop, dict(sub), nboot, size, list(pop_ids), filter=filt, mask_corners=mc, polarized=pol)
+    except Exception as e:
+        if lines_with_enough(ds, filt, sub) == 0:
+            chk.stat('pipeline:empty-dictionary'); return          # no line survives the sub-sampling: no chunks, nothing to resample
+        chk.fail('bootstraps_subsample_vcf:raises:%s' % type(e).__name__, 'bootstraps_subsample_vcf(subsample=%r, pop_ids=%r, ...) raises %r' % (sub, pop_ids, e), inp); return
+    finally:
+        np.random.choice = orig_choice; M.random.choices = orig_choices
+    chk.l3(('pipeline', len(pop_ids), len(sub), same_order, sizes_differ, pol, mc, filt))
+    # ---- replicates: one chunk choice each, its draws before it
+    reps = []; cur = []
+    for kind, ev in events:
+        if kind == 'draw': cur.append(ev)
+        else: reps.append((cur, ev)); cur = []
+    if len(boots) != nboot or len(reps) != nboot or cur:
+        chk.fail('bootstraps_subsample_vcf:count', '%d spectra, %d chunk choices (%d draws after the last one) for Nboot=%d' % (len(boots), len(reps), len(cur), nboot), inp); return
+    em = expected_mask(proj, pol, mc)
+    for bi, (b, (draws, (npopu, chosen))) in enumerate(zip(boots, reps)):
+        rinp = dict(inp, replicate=bi, choice=chosen)
+        # ---- the requested number of individuals, population by population in the order of pop_ids
+        got_ns = tuple(int(x) for x in b.sample_sizes)
+        if got_ns != tuple(proj):
+            chk.fail('bootstraps_subsample_vcf:sample-sizes', 'replicate %d has sample sizes %s; subsample=%r and pop_ids=%r ask for %s (two chromosomes per requested individual, in the order of pop_ids)'
+                     % (bi, got_ns, sub, pop_ids, tuple(proj)), rinp)
+        if (b.pop_ids is not None and list(b.pop_ids) != pop_ids) or b.folded != (not pol):
+            chk.fail('bootstraps_subsample_vcf:flags', 'replicate %d: pop_ids=%s folded=%s' % (bi, b.pop_ids, b.folded), rinp)
+        # ---- the sub-sampled dictionary of this replicate and its chunks, recomputed
+        ent, used, problem = oracle_subsampled(ds, filt, sub, draws)
+        if problem is None and used != len(draws):
+            problem = '%d draws recorded, the lines and populations with enough complete genotypes account for %d' % (len(draws), used)
+        if problem:
+            chk.fail('bootstraps_subsample_vcf:draws', 'replicate %d: %s' % (bi, problem), rinp); continue
+        chunks = oracle_chunks(ent, size)
+        if len(chunks) != npopu or any(c >= len(chunks) for c in chosen) or len(chosen) != npopu:
+            chk.fail('bootstraps_subsample_vcf:chunks', 'replicate %d: %d chunk spectra were resampled (%d drawn), the sub-sampled dictionary (%d SNPs) has %d chunks of %d bp'
+                     % (bi, npopu, len(chosen), len(ent), len(chunks), size), rinp); continue
+        cache = {}
+        ref = None; usable = 0
+        for c in chosen:
+            if c not in cache:
+                cache[c] = oracle_spectrum(chunks[c], pop_ids, proj, pol)
+            ref = cache[c][0] if ref is None else ref + cache[c][0]
+            usable += cache[c][1]
+        if ref is None:
+            ref = oracle_spectrum([], pop_ids, proj, pol)[0]
+        # every SNP the sub-sampling kept has exactly the projected number of calls: usable iff polarisable (when polarised)
+        direct = sum(sum(1 for e in chunks[c] if (not pol) or (e['out'] != '-' and e['out'] in (e['a1'], e['a2']))) for c in chosen)
+        chk.stat('pipeline:usable=%s' % ('none' if direct == 0 else 'some'))
+        if got_ns == tuple(proj):
+            ok, err, scale = unmasked_close(b, ref)
+            if not ok:
+                chk.fail('bootstraps_subsample_vcf:sum', 'replicate %d is not the sum of the spectra of its chosen chunks of the sub-sampled data (differs by %.3g, scale %.3g)' % (bi, err, scale), rinp)
+            if not np.array_equal(np.ma.getmaskarray(b), em):
+                chk.fail('bootstraps_subsample_vcf:mask', 'replicate %d: mask differs from (corners if requested) + (folded-out half if unpolarised) at %s'
+                         % (bi, [tuple(int(x) for x in c) for c in np.argwhere(np.ma.getmaskarray(b) != em)[:4]]), rinp)
+            want = ref_total(ref, em)
+            if abs(masked_total(b) - float(want)) > 1e-9 * max(direct, 1):
+                chk.fail('bootstraps_subsample_vcf:visible-total', 'replicate %d: fs.sum() = %.12g, the usable SNPs of the chosen chunks outside the masked entries add up to %.12g' % (bi, masked_total(b), float(want)), rinp)
+        tot = float(np.sum(np.asarray(b.data)))
+        if usable != direct or abs(tot - direct) > 1e-9 * max(direct, 1):
+            chk.fail('bootstraps_subsample_vcf:total', 'replicate %d: total %.12g; the chosen chunks hold %d sub-sampled SNPs that are usable (every kept SNP has exactly 2 x requested calls)' % (bi, tot, direct), rinp)
+        if bi == 0:
+            check_pure(chk, ds, b, dict(at, replicate=bi), 'pipeline:boot', derived=False)
+        # ---- K: the model's composition (generated glue) fed the same draws and choice
+        if have_driver(ctx):
+            want_w = '+'.join('%d:%d' % (pops.index(p), k) for p, k in sub.items())
+            ids_w = ','.join(str(pops.index(p)) for p in pop_ids)
+            dw = ';'.join(','.join(map(str, d[3])) if d[3] else '-' for d in draws) if draws else '-'
+            out = ask(ctx, 'bsv %d %d %d %d %d %s %s %s %s %s' % (filt, mc, pol, nboot, size, want_w, ids_w, dw, ','.join(map(str, chosen)) if chosen else '-', sites_wire(ds, codes)))
+            if out.startswith('ok '):
+                toks = out[3:].split(' ')
+                mshape = parse_nd_exact(toks[0])[0]
+                if tuple(mshape) != tuple(b.shape) or toks[4] != ','.join(str(n) for n in got_ns) or int(toks[2]) != 0 or int(toks[3]) != npopu:
+                    kbad(chk, 'bsv', ds, dict(sample_sizes=got_ns, chunks=npopu, unused_draws=0), dict(projections=toks[4], chunks=toks[3], unused_draws=toks[2]), None, dict(at, replicate=bi))
+                else:
+                    cmp_spec_model(chk, ctx, ds, 'bsv', b, 'ok ' + ' '.join(toks[:2]), dict(at, replicate=bi, choice=chosen))
+            else:
+                kbad(chk, 'bsv', ds, dict(sample_sizes=got_ns), out, None, dict(at, replicate=bi))
 
 def is_snp_line(site, filt):
     """the statement's 'biallelic SNP' for a VCF line: REF and ALT are each exactly one of A, C, G, T (any case), and the line passes the filter if asked"""
@@ -999,9 +1238,10 @@ def check_vcf_dataset(chk, ctx, ds):
         check_spectra(chk, ctx, ds, dd, entries_oracle, model_entries, pops, 'vcf')
         check_chunks(chk, ctx, ds, dd, model_entries, pops, codes, 'vcf')
         check_subsample(chk, ctx, ds, vcf, pop, pops, codes)
+        check_pipeline(chk, ctx, ds, vcf, pop, pops, codes)
         chk.sample(dict(kind='vcf', pops=pops, diploids=ds['ndip'], lines=len(ds['sites']), kept=len(dd), fmt=ds['fmt'],
                         chroms=sorted(set(s['chrom'] for s in ds['sites'])), configs=ds['params']['configs'],
-                        chunk_size=ds['params']['chunk_size'], subsample=ds['params']['subsample'],
+                        chunk_size=ds['params']['chunk_size'], subsample=ds['params']['subsample'], pipeline=ds['params'].get('pipeline'),
                         first_line=dict((k, ds['sites'][0][k]) for k in ('chrom', 'pos', 'ref', 'alt', 'filt', 'aa'))))
     finally:
         shutil.rmtree(d, ignore_errors=True)
@@ -1311,6 +1551,7 @@ def check_full_dataset(chk, ctx, ds):
                     else:
                         kbad(chk, 'direct_fst', ds, Fref, out, None, dict(stage='full'))
         chk.stat('full:npop=%d' % len(pops))
+        check_pipeline(chk, ctx, ds, vcf, pop, pops, Codes())
     finally:
         shutil.rmtree(d, ignore_errors=True)
 
@@ -1422,7 +1663,7 @@ def run(chk, ctx):
     check_weights(chk, ctx, rng, 60 if tier == 'quick' else 600)
     if have_driver(ctx):
         out = ask(ctx, 'shapes13')
-        if out.strip() == 'ok 1 1 1 1 1 1 1 1 1 1': chk.k_ok('shapes13')
+        if out.strip() == 'ok 1 1 1 1 1 1 1 1 1 1 1': chk.k_ok('shapes13')
         else: chk.k_bad('shapes13', dict(kind='shapes'), None, out, None)
     for it in range(nv):
         check_dataset(chk, ctx, gen_dataset(rng, tier, 'vcf'), rng)
